@@ -262,3 +262,57 @@ def callee_fn(facts, e):
     if is_expr(e) and e['k'] in ('call', 'ctor', 'inhctor', 'fnref') and e.get('fn') is not None:
         return facts.fn(e['fn'])
     return None
+
+
+def expand(e, decls, depth=0):
+    """substitute the initialisers of const local value variables (single-assignment temporaries) into e."""
+    if not is_expr(e) or depth > 20:
+        return e
+    e = strip(e)
+    if not is_expr(e):
+        return e
+    if e['k'] == 'var' and e.get('vk') == 'local':
+        d = decls.get(e['id'])
+        if d is not None and d.get('const') and not d.get('ref') and d.get('init') is not None:
+            return expand(d['init'], decls, depth + 1)
+        return e
+    out = dict(e)
+    for key in EXPR_CHILD_KEYS:
+        if is_expr(e.get(key)):
+            out[key] = expand(e[key], decls, depth + 1)
+    for key in EXPR_LIST_KEYS:
+        if e.get(key):
+            out[key] = [expand(a, decls, depth + 1) if is_expr(a) else a for a in e[key]]
+    return out
+
+
+def normalize(e):
+    """strip value-preserving wrappers everywhere and canonicalise shift/mask forms of div/mod by powers of two."""
+    if not is_expr(e):
+        return e
+    e = strip(e)
+    if not is_expr(e):
+        return e
+    out = dict(e)
+    for key in EXPR_CHILD_KEYS:
+        if is_expr(e.get(key)):
+            out[key] = normalize(e[key])
+    for key in EXPR_LIST_KEYS:
+        if e.get(key):
+            out[key] = [normalize(a) if is_expr(a) else a for a in e[key]]
+    if out['k'] == 'bin':
+        r = out.get('r')
+        if out['op'] == '>>' and is_expr(r) and r['k'] == 'c' and 0 <= r['v'] < 31:
+            out = dict(out, op='/', r={'k': 'c', 'v': 1 << r['v']})
+        elif out['op'] == '&' and is_expr(r) and r['k'] == 'c' and r['v'] > 0 and (r['v'] & (r['v'] + 1)) == 0:
+            out = dict(out, op='%', r={'k': 'c', 'v': r['v'] + 1})
+    if out['k'] == 'c':
+        out = {'k': 'c', 'v': out['v']}
+    return out
+
+
+def npp(e, decls=None):
+    """normalised pretty form (for sibling comparison)."""
+    if decls is not None:
+        e = expand(e, decls)
+    return pp(normalize(e))
